@@ -12,6 +12,7 @@ from . import c01
 
 PROPERTY = "C02"
 LEVEL = "exploration"
+TECHNIQUE = 'property-based testing (Hypothesis): oracle = symbolic derivative of the emitted RHS polynomial, both directions (emitted entries correct, omitted entries identically zero); unparsable text judged by clang++ -fsyntax-only'
 RULE = (
     "C01's generated networks plus ODE modifiers of every shape (0-3 terms, 0/1/2/3 dependency species, repeated "
     "dependencies, signed/arithmetic factors) rendered for all four back-ends; every emitted Jacobian entry "
